@@ -62,6 +62,16 @@ def check(rng, deep):
         C.push(out, dict(what='steady-state distributions differ between independent Markov dimensions and their Kronecker product', input=dict(kind='pair', pair='multi-kron'), signature=dict(op='internals', pair='multi-kron')))
     shocks = [{'r': 0.002 * 0.8 ** np.arange(T)}, {'shift_z': 0.004 * 0.7 ** np.arange(T)}, {'shift_e': 0.003 * 0.5 ** np.arange(T), 'w': 0.01 * np.ones(T)}]
     n += pair_checks('multi-kron', m.multi, ssm, m.kron, ssk, ['r', 'w', 'shift_e', 'shift_z', 'beta'], ['A', 'C'], T, out, 1e-6, shocks)
+    # three independent exogenous dimensions vs their Kronecker product (the running expectation across dimensions must be cumulative)
+    mc3 = m.multi3_calib()
+    ss3, ssk3 = m.multi3.steady_state(mc3), m.kron3.steady_state(mc3)
+    D3, Dk3 = ss3.internals[m.multi3.name]['D'], ssk3.internals[m.kron3.name]['D']
+    n += 1
+    if np.abs(D3.reshape(Dk3.shape) - Dk3).max() > 1e-8:
+        C.push(out, dict(what='steady-state distributions differ between three independent Markov dimensions and their Kronecker product', input=dict(kind='pair', pair='multi3-kron3'), signature=dict(op='internals', pair='multi3-kron3')))
+    T3 = 6
+    shocks = [{'shift_e': 0.003 * 0.5 ** np.arange(T3)}, {'shift_z': 0.004 * 0.7 ** np.arange(T3), 'shift_q': 0.002 * np.ones(T3)}]
+    n += pair_checks('multi3-kron3', m.multi3, ss3, m.kron3, ssk3, ['r', 'shift_e', 'shift_z', 'shift_q'], ['A', 'C'], T3, out, 1e-6, shocks)
     return out, n
 
 
@@ -73,7 +83,7 @@ def oracle(ctx, hints, broken):
         viol, n = [dict(what=f'C10 oracle raised {type(ex).__name__}: {ex}', input=dict(kind='raise', trace=traceback.format_exc()[-800:]), signature=dict(op='raise'))], 1
     return dict(evaluations=n, violations=viol,
                 rule='the same one-asset household as a backward-function block and as a two-stage block (inputs incl. Markov shifters, an input moving both the matrix and '
-                     'income, income-process parameters, hetoutput), and a household with two independent Markov dimensions vs their Kronecker product (separate shifters): '
+                     'income, income-process parameters, hetoutput), and a household with two independent Markov dimensions vs their Kronecker product (separate shifters), and the same with three independent dimensions: '
                      'steady-state aggregates, distributions, policies, Jacobians, linear and nonlinear impulses')
 
 
